@@ -32,7 +32,7 @@
 (* that describe it, or the empty format); a step edits the format: replace *)
 (* / insert / delete a production, wrap productions in T{}, repeat a        *)
 (* record, or put a production behind the end.  Every state is a case.      *)
-EXTENDS Naturals, Sequences, FiniteSets, TLC, Json
+EXTENDS Integers, Sequences, FiniteSets, TLC, Json
 
 CONSTANTS DtNames,   \* dtypes explored
           Edits,     \* edits applied to a spine format (the first from the whole alphabet)
@@ -68,7 +68,7 @@ TCof(c) == CASE c = "?" -> TCode("U", 1, 1, 1) [] c = "c" -> TCode("H", 1, 1, 1)
              [] c = "d" -> TCode("R", 8, 8, 8) [] c = "g" -> TCode("R", 16, 0, 16)
              [] c = "Zf" -> TCode("C", 8, 8, 4) [] c = "Zd" -> TCode("C", 16, 16, 8)
              [] c = "Zg" -> TCode("C", 32, 0, 16)
-             [] c = "O" -> TCode("O", 8, 0, 8) [] c = "P" -> TCode("P", 8, 0, 8)
+             [] c = "O" -> TCode("O", 8, 8, 8) [] c = "P" -> TCode("P", 8, 0, 8)
              [] c = "s" -> TCode("I", 1, 1, 1) [] c = "p" -> TCode("I", 1, 1, 1)
 
 ---------------------------------------------------------------------------
@@ -453,6 +453,12 @@ vars == <<dt, D, prods, ned, lastpos, atend, ntail, ref, impl>>
 fmt == Flat(prods)
 
 Editable(i) == prods[i] \notin {OPEN, OPEN2, CLOSE}
+\* byte-order marks stay outside records (inside, NumPy and the code give them different meanings for the record's padding)
+RECURSIVE DepthAt(_, _)
+DepthAt(ps, i) == IF i <= 1 THEN 0
+                  ELSE DepthAt(ps, i - 1) + (IF ps[i - 1] \in {OPEN, OPEN2} THEN 1 ELSE IF ps[i - 1] = CLOSE THEN -1 ELSE 0)
+MarkProds == {<<m>> : m \in Marks}
+Placeable(a, i) == a \in MarkProds => DepthAt(prods, i) = 0
 Alpha == IF ned = 0 THEN AlphaFull ELSE IF Wide THEN AlphaFull ELSE AlphaMedium
 
 Set_(ps, e, lp, ae, nt, f) ==
@@ -464,16 +470,16 @@ Set(ps, e, lp, ae, nt) == Set_(ps, e, lp, ae, nt, Flat(ps))
 InsertAt(ps, i, a) == SubSeq(ps, 1, i - 1) \o <<a>> \o SubSeq(ps, i, Len(ps))
 Subst == /\ ned < Edits
          /\ \E i \in (lastpos + 1)..Len(prods) : /\ Editable(i)
-              /\ \E a \in Alpha \ {prods[i]} : Set([prods EXCEPT ![i] = a], 1, i, FALSE, ntail)
+              /\ \E a \in Alpha \ {prods[i]} : Placeable(a, i) /\ Set([prods EXCEPT ![i] = a], 1, i, FALSE, ntail)
 Insert == /\ ned < Edits
           /\ \E i \in (lastpos + 1)..Len(prods) :
-               /\ \E a \in Alpha : Set(InsertAt(prods, i, a), 1, i, FALSE, ntail)
+               /\ \E a \in Alpha : Placeable(a, i) /\ Set(InsertAt(prods, i, a), 1, i, FALSE, ntail)
 InsertEnd == /\ ned < Edits /\ ntail < MaxTail /\ (Deep \/ ntail = 0)
              /\ \E a \in Alpha : Set(Append(prods, a), 1, Len(prods) + 1, atend, IF Deep THEN ntail + 1 ELSE MaxTail)
 Delete == /\ ned < Edits
           /\ \E i \in (lastpos + 1)..Len(prods) : /\ Editable(i)
                /\ Set(SubSeq(prods, 1, i - 1) \o SubSeq(prods, i + 1, Len(prods)), 1, i - 1, FALSE, ntail)
-WrapAll == /\ ned < Edits /\ lastpos = 0 /\ prods # <<>>
+WrapAll == /\ ned < Edits /\ lastpos = 0 /\ prods # <<>> /\ \A i \in 1..Len(prods) : prods[i] \notin MarkProds
            /\ \E o \in {OPEN, OPEN2} : Set(<<o>> \o prods \o <<CLOSE>>, 1, Len(prods) + 2, FALSE, ntail)
 WrapOne == /\ ned < Edits
            /\ \E i \in (lastpos + 1)..Len(prods) : /\ Editable(i) /\ prods[i] \notin Neutrals
